@@ -113,6 +113,36 @@ def rand_breaks(rng, T):
     return sorted(rng.sample(range(1, T), min(k, T - 1)))
 
 
+def edge_site(rng, T, bps):
+    """a position, preferably at / next to a break point or at an end"""
+    cand = [0, T - 1]
+    for b in bps:
+        cand += [b, b - 1, b + 1]
+    cand = [c for c in cand if 0 <= c < T]
+    return rng.choice(cand) if cand and rng.random() < 0.75 else rng.randrange(T)
+
+
+def posterior_ops(rng, T, bps, objs):
+    """posterior accessors in every form: all sites (fresh target vector / named target vector with and
+    without append, also a vector filled by another object), single site, per-site likelihoods"""
+    ops = []
+    for _ in range(rng.randint(1, 4)):
+        o = rng.choice(objs)
+        u = rng.random()
+        if u < 0.45:
+            b = rng.choice(["A", "A", "B"])
+            ops.append("postb %s %s %d" % (o, b, 1 if rng.random() < 0.65 else 0))
+        elif u < 0.6:
+            ops.append("post %s" % o)
+        elif u < 0.78:
+            ops.append("post1 %s %d" % (o, edge_site(rng, T, bps)))
+        elif u < 0.92:
+            ops.append("sl %s %d" % (o, edge_site(rng, T, bps)))
+        else:
+            ops.append("sls %s" % o)
+    return ops
+
+
 def generate(seed, tier):
     rng = random.Random(seed)
     thorough = tier == "thorough"
@@ -137,9 +167,8 @@ def generate(seed, tier):
             ops += ["brk r " + bs, "brk l " + bs, "brk g " + bs, "agree r l g"]
             if rng.random() < 0.5:
                 ops += ["post r", "post g"]
-            if rng.random() < 0.2:
-                ops += [rng.choice(["sls r", "sls g", "sl r %d" % rng.randrange(T), "sl g %d" % rng.randrange(T),
-                                    "post1 r %d" % rng.randrange(T), "post1 g %d" % rng.randrange(T)])]
+            if rng.random() < 0.3:
+                ops += posterior_ops(rng, T, b, ["r", "g"])
         cases.append(["case enum%d n=%d T=%d %s" % (i, n, T, kind)] + ops)
     # ---- chunk
     n_chunk = 120 if thorough else 30
@@ -168,10 +197,11 @@ def generate(seed, tier):
         for _ in range(3):
             bs = " ".join(map(str, rand_breaks(rng, T)))
             ops += ["brk r " + bs, "brk l " + bs, "brk g " + bs, "agree r l g"]
+        lastb = [int(x) for x in bs.split()]
         if T <= 300:
-            ops += ["post r", "post g", "sls r"]
+            ops += ["post r", "post g", "sls r", "postb g A 1", "postb g A 1"]
         else:
-            ops += ["post1 r %d" % rng.randrange(T), "post1 g %d" % rng.randrange(T), "sl r %d" % rng.randrange(T)]
+            ops += ["post1 r %d" % edge_site(rng, T, lastb), "post1 g %d" % edge_site(rng, T, lastb), "sl r %d" % edge_site(rng, T, lastb)]
         cases.append(["case long%d n=%d T=%d %s c=%d" % (i, n, T, kind, c)] + ops)
     # ---- hist
     n_hist = 400 if thorough else 90
@@ -184,6 +214,8 @@ def generate(seed, tier):
         c = rng.randint(1, T + 1)
         objs = ["r", "l", "g"]
         ops += ["build r resc 1", "build l low 1 %d" % c, "build g log 1"]
+        cur_b = []
+        made = set()
         for _ in range(rng.randint(3, 14)):
             u = rng.random()
             if u < 0.35:
@@ -219,17 +251,16 @@ def generate(seed, tier):
                 for o in objs:
                     ops.append("setps %s %s" % (o, " ".join(pairs)))
             elif u < 0.65:
-                bs = " ".join(map(str, rand_breaks(rng, T)))
+                cur_b = rand_breaks(rng, T)
+                bs = " ".join(map(str, cur_b))
                 for o in objs:
                     ops.append("brk %s %s" % (o, bs))
             elif u < 0.72:
                 ops.append("agree r l g")
-            elif u < 0.80:
+            elif u < 0.76:
                 ops.append("post %s" % rng.choice(["r", "g", "r", "g", "l"]))
-            elif u < 0.86:
-                ops.append("%s %s %d" % (rng.choice(["post1", "sl"]), rng.choice(["r", "g"]), rng.randrange(T)))
             elif u < 0.89:
-                ops.append("sls %s" % rng.choice(["r", "g"]))
+                ops += posterior_ops(rng, T, cur_b, ["r", "g", "r", "g", "l"])
             elif u < 0.96:
                 var = "e%d_%d" % (rng.randrange(T), rng.randrange(n)) if rng.random() < 0.85 else rng.choice(["p0_0", "f0", "zz"])
                 o = rng.choice(["r", "r", "r", "g", "g", "l"])
@@ -242,7 +273,15 @@ def generate(seed, tier):
                 # deep copy: the copy and the original then evolve independently
                 src = rng.choice(["r", "l", "g"])
                 dst = src + "2"
-                ops.append("clone %s %s" % (src, dst))
+                if dst in made and rng.random() < 0.6:
+                    # operator= onto an existing object of the same class (which has its own tables, break
+                    # points and caches), in either direction
+                    if rng.random() < 0.3:
+                        src, dst = dst, src
+                    ops.append("assign %s %s" % (src, dst))
+                else:
+                    ops.append("clone %s %s" % (src, dst))
+                    made.add(dst)
                 nm = "e%d_%d" % (rng.randrange(T), rng.randrange(n))
                 v = max(rand_emission(rng, kind), 1e-3) if kind in ("pos", "stat") else rand_emission(rng, kind)
                 ops += ["setp %s %s %s" % (dst, nm, h(v)), "brk %s %s" % (src, " ".join(map(str, rand_breaks(rng, T)))),
@@ -253,6 +292,58 @@ def generate(seed, tier):
                 ops.append("%s %s" % (rng.choice(["ll", "val"]), rng.choice(objs)))
         ops.append("agree r l g")
         cases.append(["case hist%d n=%d T=%d %s" % (i, n, T, kind)] + ops)
+    # ---- copy: copy constructor (clone) and operator= between objects of different sizes, with filled caches
+    n_copy = 120 if thorough else 30
+    for i in range(n_copy):
+        ops = []
+        dims = []
+        for tag in ("1", "2"):
+            n = rng.choice([1, 2, 2, 3, 4])
+            T = rng.randint(1, {1: 8, 2: 7, 3: 5, 4: 4}[n])
+            kind = rng.choice(["pos", "stat", "any"])
+            P, F, E = stationary_tables(rng, n, T) if kind == "stat" else tables(rng, n, T, kind)
+            dims.append((n, T, kind))
+            ops += stage(n, P, F, E)
+            ops += ["build r%s resc 1" % tag, "build g%s log 1" % tag, "build l%s low 1 %d" % (tag, rng.randint(1, T + 1))]
+            for o in ("r", "g", "l"):
+                ops.append("brk %s%s %s" % (o, tag, " ".join(map(str, rand_breaks(rng, T)))))
+            # fill some caches: backward arrays, derivative arrays
+            for _ in range(rng.randint(0, 3)):
+                o = rng.choice(["r", "g"]) + tag
+                ops.append(rng.choice(["post %s" % o, "d1 %s e%d_%d" % (o, rng.randrange(T), rng.randrange(n)),
+                                       "d2 %s e%d_%d" % (o, rng.randrange(T), rng.randrange(n)), "postb %s A 1" % o]))
+        for _ in range(rng.randint(2, 6)):
+            cls = rng.choice(["r", "g", "l", "r", "g"])
+            a, b = rng.choice([("1", "2"), ("2", "1"), ("1", "3"), ("2", "3"), ("3", "1")])
+            src, dst = cls + a, cls + b
+            if b == "3":
+                ops.append("clone %s %s" % (src, dst))
+            elif rng.random() < 0.1:
+                ops.append("assign %s %s" % (src, rng.choice(["r", "g", "l"]) + b))      # possibly another class
+            else:
+                ops.append("assign %s %s" % (src, dst))
+            # both evolve independently afterwards
+            for o in (dst, src):
+                tag = o[1]
+                for _ in range(rng.randint(1, 3)):
+                    n, T, kind = dims[0] if tag == "1" else dims[1] if tag == "2" else dims[0]
+                    u = rng.random()
+                    # (names of another object's size are harmless: unknown parameters / sites are refused alike)
+                    if u < 0.3:
+                        v = max(rand_emission(rng, kind), 1e-3) if kind in ("pos", "stat") else rand_emission(rng, kind)
+                        ops.append("setp %s e%d_%d %s" % (o, rng.randrange(T), rng.randrange(n), h(v)))
+                    elif u < 0.45:
+                        ops.append("brk %s %s" % (o, " ".join(map(str, rand_breaks(rng, T)))))
+                    elif u < 0.6:
+                        ops.append("ll %s" % o)
+                    elif u < 0.8 and cls != "l":
+                        ops += posterior_ops(rng, T, [], [o])
+                    elif cls != "l":
+                        var = "e%d_%d" % (rng.randrange(T), rng.randrange(n))
+                        ops.append("%s %s %s" % (rng.choice(["d1", "d2"]), o, var))
+                    else:
+                        ops.append("val %s" % o)
+        cases.append(["case copy%d" % i] + ops)
     # ---- bad
     n_bad = 80 if thorough else 20
     for i in range(n_bad):
